@@ -42,6 +42,7 @@ class Ctx:
         self.havoc_map = {}    # description of havoc symbols
         self.stage = 0
         self.last_names = None
+        self.sys_base = 0
         self.cur_net = None
         self.cur_heat = False
 
@@ -129,7 +130,7 @@ def sym_spsolve(A, b):
         out = _np.empty(n, dtype=object)
         out[...] = 0.0
         return out
-    xn = _x_names(n, k)
+    xn = _x_names(n, k - getattr(CTX, "sys_base", 0))
     rec["xnames"] = xn
     x = _np.array([Sym(z3.Real(nm)) for nm in xn], dtype=object)
     cons = []
